@@ -559,7 +559,20 @@ def table_obligations() -> list:
     cm = dict(prop=PROP, kind='static', functions=('wn.constants.REVERSE_RELATIONS',), source='wn/constants.py')
     bad = sorted(k for k, v in R.items() if R.get(v) != k)
     unknown = sorted(x for x in set(R) | set(R.values()) if x not in known)
-    return [Obligation('wn.constants.REVERSE_RELATIONS:involution', decided=not bad,
+    # the inventories W402 reads are the documented ones (docs/api/wn.constants.rst lists every member)
+    import re as _re
+    doc = (REPO / 'docs' / 'api' / 'wn.constants.rst').read_text()
+    documented = {}
+    for m in _re.finditer(r'^\.\. data:: (\w+)\n(.*?)(?=^\.\. data::|^\S.*\n[-=~^]{3,}\n|\Z)', doc, flags=_re.S | _re.M):
+        documented[m.group(1)] = set(_re.findall(r'^\s+- ``([^`]+)``', m.group(2), flags=_re.M))
+    inv_obs = []
+    for name in ('SYNSET_RELATIONS', 'SENSE_RELATIONS', 'SENSE_SYNSET_RELATIONS'):
+        have, want = set(getattr(K, name)), documented.get(name, set())
+        diff = sorted(have ^ want)
+        inv_obs.append(Obligation(f'wn.constants.{name}:documented-inventory', decided=bool(want) and not diff,
+                                  detail=f'{len(have)} members, {len(want)} documented; only on one side: {diff[:8]}',
+                                  **cm))
+    return inv_obs + [Obligation('wn.constants.REVERSE_RELATIONS:involution', decided=not bad,
                        detail=f'{len(R)} pairs; not reciprocal: {bad[:6]}', **cm),
             Obligation('wn.constants.REVERSE_RELATIONS:known-names', decided=not unknown,
                        detail=f'names outside the relation inventories: {unknown[:6]}', **cm)]
